@@ -71,14 +71,18 @@ class Check(PropertyCheck):
     prop = "C17"
     module = "LLBuild.Props.C17"
     theorems = [t for t in LEX.theorems if ".C17_" in t] + \
-               [t for t in LOAD.theorems if ".C19_" not in t and t != "LLBuild.NinjaLoader.F14_witness"]
+               [t for t in LOAD.theorems if ".C19_" not in t and t != "LLBuild.NinjaLoader.F14_witness"] + \
+               c17load.PARSER_C17_THEOREMS
     extractors = uniq(LEX.extractors + LOAD.extractors)
     impl_cfgs = uniq(LEX.impl_cfgs + LOAD.impl_cfgs)
     harnesses = uniq(LEX.harnesses + LOAD.harnesses)
     assumptions = ["[lexical half] " + a for a in LEX.assumptions] + ["[semantic half] " + a for a in LOAD.assumptions] + [
-        "the two halves meet at the parser's declaration stream: the lexical half decides tokens, the semantic half starts from "
-        "the declarations the REAL Parser produces from them; lib/Ninja/Parser.cpp itself has no Lean model (it is exercised by "
-        "the semantic half's correspondence and by the differential oracle against the installed ninja on every run)"]
+        "the two halves meet at the parser: lib/Ninja/Parser.cpp has a Lean model (Model/NinjaParser.lean, a state machine over "
+        "lexer cursor, lexer mode and look-ahead token that drives the lexer model) tied to the real Parser by verbatim comparison of "
+        "the complete callback trace (every action, token payload and error message) on generated, malformed and byte-mutated manifests "
+        "(stream `parser` of the semantic half); the pure-Lean pipeline bytes -> lexer -> parser -> loader is compared with the real "
+        "ManifestLoader on the semantic half's manifests; the shape theorems are stated relative to the token sequence the lexer model "
+        "delivers in the modes the parser asks for (hypothesis `Follows`), which the lexical theorems characterise"]
     trusted_base = uniq(LEX.trusted_base + LOAD.trusted_base)
 
     def correspond(self, ctx, res):
